@@ -63,6 +63,12 @@ type InstCfg struct {
 	// OnDemoteAfter: 0 = OnDemote is registered before Start (like OnPromote); > 0 = it is
 	// registered only at that virtual time; < 0 = never (OnPromote alone is registered).
 	OnDemoteAfter Dur `json:"ondemote_after,omitempty"`
+	// NoMetrics / NoLogger: the optional configuration fields Metrics / Logger are left nil. Without
+	// Metrics the harness observes the leadership flag by polling (before every lock release of the
+	// instrumented copy and at quiescent points); without Logger the watch counts as established
+	// when the instance's Watch call has returned.
+	NoMetrics bool `json:"no_metrics,omitempty"`
+	NoLogger  bool `json:"no_logger,omitempty"`
 }
 
 type StoreCfg struct {
